@@ -147,9 +147,10 @@ def run(tier, seed, res):
     res.coverage["excluded_by_construction:C14-F1_put_and_get_same_direction(ops rewritten)"] = excluded
     res.coverage["excluded_by_construction:C14-F2_cross_gets_with_dynrecv_eq_dyn(ops rewritten)"] = excl2
     # regression / finding replays first (seconds)
-    _regress(b, res)
+    bg = mb.in_background(_regress, b, res)
     mb.run_batches(PROP, b, batches, res, "plans", timeout=240 if quick else 1500, max_parallel=5 if quick else 5,
                    tq_ms=5000 if quick else 20000, shrink=mb.shrink_lines)
+    bg.join()
     floor = 20 if quick else 400
     if not res.violations and res.distinct_nontrivial < floor:
         res.inconclusive = "only %d non-trivial plans executed (floor %d)" % (res.distinct_nontrivial, floor)
